@@ -1068,3 +1068,19 @@ Proof.
   intros Hs H. rewrite (lookups_for_mask_v_subst m t t' script lang fv mask Hs) in H.
   exact (mask_lookups_applied_in_list_order _ _ _ _ _ H).
 Qed.
+
+(* everything together: from the bytes of the table to the glyphs *)
+Theorem gsub_apply_under_tuple m d fvt tu fv t :
+  table_ok d -> layout_read_fv m d = Ok fvt -> feature_variations m fvt tu = Ok fv ->
+  exists t', subst_layout m fv t = Ok t' /\
+    (forall gd script lang feats n gs,
+       gsub_apply_custom_v m t fvt gd script lang feats tu n gs = gsub_apply_custom m t' gd script lang feats n gs) /\
+    (forall gd script lang mask n gs,
+       gsub_apply_default_v m t fvt gd script lang mask tu n gs =
+       gsub_apply_default_t m t' gd script lang mask (match tu with Some _ => true | None => false end) n gs).
+Proof.
+  intros Hd Hr Hf. destruct (substituted_layout_exists m d fvt tu fv t Hd Hr Hf) as [t' Ht'].
+  exists t'. split; [exact Ht'|]. split.
+  - intros. apply gsub_apply_custom_v_subst with (fv := fv); assumption.
+  - intros. apply gsub_apply_default_v_subst with (fv := fv); assumption.
+Qed.
